@@ -66,7 +66,7 @@ PROPS['C08'] = dict(
     level_text='Random search with integrated shrinking over (class, scalar type, n <= 24, five entry patterns incl. exact-zero / negligible / '
                'Taylor-branch subdiagonals and scales 1e-100..1e100, four shift kinds incl. exact eigenvalues) checking Q orthogonal, R triangular with '
                'exact zeros, QR = H - sI, matrix_QtHQ = Q\'HQ with the documented shape (the destination is handed over empty, pre-filled with a constant at the same or another size, or NaN-filled; '
-               'the object may have decomposed another matrix before), every apply_* overload against the explicit product, and the '
+               'the object may have decomposed another matrix before), every apply_* overload against the explicit product (the matrix overloads on a plain matrix and on a row block of a taller matrix, i.e. an Eigen::Ref whose outer stride exceeds its row count, whose other rows must stay untouched), and the '
                'double-shift first-column condition, all to 64 n eps (||H||+|s|). Sampling, not a proof; the class histogram in evidence shows what was reached.',
     level_note='Reference products are formed in long double (for the long double instantiation the reference has the same precision; the asserted constant 64 '
                'leaves >15x headroom over the worst ratio observed). DoubleShiftQR is generated for n >= 3 and the other two for n >= 2 (the sizes their callers can produce).',
@@ -75,7 +75,7 @@ PROPS['C08'] = dict(
         quick=[dict(unit='c08', cases=5000, workers=4)],
         thorough=[dict(unit='c08', cases=100000, workers='all')],
     ),
-    min=dict(quick=dict(cases=15000, nontrivial=8000, classes={'dest_prefilled_same_size': 3000, 'object_reused_after_other_compute': 1500, 'DoubleShiftQR/double': 300, 'TridiagQR/float': 300, 'negligible_subdiagonal': 500, 'exact_eigenvalue_shift': 500, 'first_column_checked': 500}),
+    min=dict(quick=dict(cases=15000, nontrivial=8000, classes={'dest_prefilled_same_size': 3000, 'object_reused_after_other_compute': 1500, 'DoubleShiftQR/double': 300, 'TridiagQR/float': 300, 'negligible_subdiagonal': 500, 'exact_eigenvalue_shift': 500, 'first_column_checked': 500, 'operand/middle_rows_of_taller_matrix': 2000, 'operand/top_rows_of_taller_matrix': 2000}),
              thorough=dict(cases=1000000, nontrivial=500000)),
     rule='case = (class in {UpperHessenbergQR, TridiagQR, DoubleShiftQR}, scalar in {float,double,long double}, n, entry pattern, entries drawn one by one, '
          'subdiagonal treatment, content of the part documented as ignored, shift kind / shifts, constructor path, apply-operand shape). Non-trivial = at least one nonzero '
